@@ -423,7 +423,7 @@ Lemma decode_spec : forall d n,
   decode d n = if all_accepted d then Ok (n + doc_size d) else Err ValueErr.
 Proof.
   fix IH 1. intros [acc children] n. cbn [decode all_accepted doc_size].
-  destruct acc; simpl; [|reflexivity].
+  destruct acc; [|reflexivity]. cbn [andb].
   assert (H : forall l m,
     (fix over (l : list doc) (n : Z) {struct l} : res Z :=
        match l with
@@ -437,7 +437,7 @@ Proof.
     - rewrite Z.add_0_r. reflexivity.
     - rewrite (IH c m). destruct (all_accepted c); simpl; [|reflexivity].
       rewrite IHl. destruct ((fix all (l : list doc) : bool := match l with [] => true | c0 :: r => all_accepted c0 && all r end) rest);
-        [f_equal; ring | reflexivity]. }
+        [f_equal; symmetry; apply Z.add_assoc | reflexivity]. }
   rewrite H. destruct ((fix all (l : list doc) : bool := match l with [] => true | c :: r => all_accepted c && all r end) children);
-    [f_equal; ring | reflexivity].
+    [f_equal; symmetry; apply Z.add_assoc | reflexivity].
 Qed.
